@@ -8,9 +8,9 @@ import (
 	"hash"
 	"io"
 
+	"github.com/ipfs/boxo/internal/verifrt"
 	mdag "github.com/ipfs/boxo/ipld/merkledag"
 	pb "github.com/ipfs/boxo/ipld/unixfs/pb"
-	"github.com/ipfs/boxo/internal/verifrt"
 	cid "github.com/ipfs/go-cid"
 	ipld "github.com/ipfs/go-ipld-format"
 	mh "github.com/multiformats/go-multihash"
@@ -429,25 +429,38 @@ func zzOps() {
 	}
 	dm, ds, f := zzSetup(n0, fillMode, prefix, raw, chunk, width)
 
+	// Assertion ids carry a suffix once a Write has been issued at a position that was established by Read
+	// (and not by Seek/Write/WriteAt since): that failure class is kept apart from all others.
+	posBy, tag := "init", ""
+	id := func(what string) string { return "C10.ops-" + what + tag }
+
 	for step := 0; step < K; step++ {
 		op := zzOpNames[verifrt.NondetRange("op", verifrt.Param("OPLO", 0), verifrt.Param("OPHI", len(zzOpNames)-1))]
 		switch op {
 		case "Write":
+			if posBy == "Read" {
+				tag = "-write-after-read"
+			}
 			b := zzOpBytes(fillMode, verifrt.NondetRange("n", 1, 2), step)
 			n, err := dm.Write(b)
-			verifrt.Assert("C10.ops-write-return", err == nil && n == len(b))
+			verifrt.Assert(id("write-return"), err == nil && n == len(b))
 			f.writeAt(b, f.pos)
 			f.pos += len(b)
+			posBy = "Write"
 		case "WriteAt":
+			if posBy == "Read" {
+				tag = "-write-after-read"
+			}
 			b := zzOpBytes(fillMode, zzPick("n", []int{1, 2}, []int{1}), step)
 			off := zzPick("off", zzSpan(0, len(f.data)+2), []int{0, max(len(f.data)-1, 0), len(f.data) + 1})
 			n, err := dm.WriteAt(b, int64(off))
-			verifrt.Assert("C10.ops-writeat-return", err == nil && n == len(b))
+			verifrt.Assert(id("writeat-return"), err == nil && n == len(b))
 			f.writeAt(b, off)
 			// offset after WriteAt: unchanged (pwrite) or just past the written bytes (seek+write)
 			after := int(dm.curWrOff)
-			verifrt.Assert("C10.ops-writeat-offset-after", after == f.pos || after == off+len(b))
+			verifrt.Assert(id("writeat-offset-after"), after == f.pos || after == off+len(b))
 			f.pos = after
+			posBy = "WriteAt"
 		case "Seek":
 			whence := zzPick("whence", []int{0, 1, 2}, []int{0, 2})
 			target := zzPick("target", zzSpan(-1, len(f.data)+2), []int{1, len(f.data) + 1})
@@ -460,9 +473,10 @@ func zzOps() {
 			}
 			got, err := dm.Seek(int64(target-base), whence)
 			if target < 0 {
-				verifrt.Assert("C10.ops-seek-negative-rejected", err != nil)
+				verifrt.Assert(id("seek-negative-rejected"), err != nil)
 			} else {
-				verifrt.Assert("C10.ops-seek-result", err == nil && got == int64(target))
+				verifrt.Assert(id("seek-result"), err == nil && got == int64(target))
+				posBy = "Seek"
 				f.pos = target
 				f.extend(target) // seeking past the end extends the file with zeros at once (accepted reading)
 			}
@@ -476,17 +490,18 @@ func zzOps() {
 					want = len(buf)
 				}
 			}
-			verifrt.Assert("C10.ops-read-count", n == want)
-			verifrt.Assert("C10.ops-read-error", err == nil || (err == io.EOF && n < len(buf)))
-			verifrt.Assert("C10.ops-read-eof", want > 0 || err == io.EOF)
+			verifrt.Assert(id("read-count"), n == want)
+			verifrt.Assert(id("read-error"), err == nil || (err == io.EOF && n < len(buf)))
+			verifrt.Assert(id("read-eof"), want > 0 || err == io.EOF)
 			if n == want {
-				verifrt.Assert("C10.ops-read-bytes", bytes.Equal(buf[:n], f.data[f.pos:f.pos+n]))
+				verifrt.Assert(id("read-bytes"), bytes.Equal(buf[:n], f.data[f.pos:f.pos+n]))
 				f.pos += n
 			}
+			posBy = "Read"
 		case "Truncate":
 			sz := zzPick("size", zzSpan(0, len(f.data)+2), []int{0, 1, len(f.data) + 1})
 			err := dm.Truncate(int64(sz))
-			verifrt.Assert("C10.ops-truncate-ok", err == nil)
+			verifrt.Assert(id("truncate-ok"), err == nil)
 			if sz <= len(f.data) {
 				f.data = f.data[:sz]
 			} else {
@@ -494,22 +509,22 @@ func zzOps() {
 			}
 		case "Size":
 			sz, err := dm.Size()
-			verifrt.Assert("C10.ops-size", err == nil && sz == int64(len(f.data)))
+			verifrt.Assert(id("size"), err == nil && sz == int64(len(f.data)))
 		case "Sync":
-			verifrt.Assert("C10.ops-sync-ok", dm.Sync() == nil)
+			verifrt.Assert(id("sync-ok"), dm.Sync() == nil)
 		case "GetNode":
 			c, err := zzContent(dm, ds)
-			verifrt.Assert("C10.ops-getnode-ok", err == nil)
-			verifrt.Assert("C10.ops-getnode-content", bytes.Equal(c, f.data))
+			verifrt.Assert(id("getnode-ok"), err == nil)
+			verifrt.Assert(id("getnode-content"), bytes.Equal(c, f.data))
 		}
 	}
 	sz, err := dm.Size()
 	verifrt.Observe("size", sz)
-	verifrt.Assert("C10.ops-final-size", err == nil && sz == int64(len(f.data)))
+	verifrt.Assert(id("final-size"), err == nil && sz == int64(len(f.data)))
 	c, err := zzContent(dm, ds)
-	verifrt.Assert("C10.ops-final-getnode-ok", err == nil)
+	verifrt.Assert(id("final-getnode-ok"), err == nil)
 	verifrt.Observe("content", c)
-	verifrt.Assert("C10.ops-final-content", bytes.Equal(c, f.data))
+	verifrt.Assert(id("final-content"), bytes.Equal(c, f.data))
 	verifrt.Reach("end")
 }
 
